@@ -302,10 +302,38 @@ func boundedHeader(b *ssa.BasicBlock, c map[*ssa.BasicBlock]bool) bool {
 			return true
 		}
 		invariant := func(v ssa.Value) bool {
-			if in, ok := v.(ssa.Instruction); ok {
-				return !c[in.Block()]
+			in, ok := v.(ssa.Instruction)
+			if !ok {
+				return true // consts, params
 			}
-			return true // consts, params
+			if !c[in.Block()] {
+				return true
+			}
+			// a field re-loaded in the loop is invariant if the loop's function never stores to a
+			// field of that name (e.g. dsc.opts.Limit.Quantity)
+			if ld, isLd := v.(*ssa.UnOp); isLd && ld.Op == token.MUL {
+				if fa, isFA := ld.X.(*ssa.FieldAddr); isFA {
+					name := fieldName(fa.X.Type(), fa.Field)
+					for _, bb := range b.Parent().Blocks {
+						for _, x := range bb.Instrs {
+							if st, isSt := x.(*ssa.Store); isSt {
+								if fa2, ok2 := st.Addr.(*ssa.FieldAddr); ok2 && fieldName(fa2.X.Type(), fa2.Field) == name {
+									return false
+								}
+							}
+							if _, isCall := x.(*ssa.Call); isCall && c[bb] {
+								// a call in the loop could write it: accept only option fields (immutable after construction)
+								if _, _, path, okp := fieldPathOf(fa); okp && len(path) > 0 && path[0] == "opts" {
+									continue
+								}
+								return false
+							}
+						}
+					}
+					return true
+				}
+			}
+			return false
 		}
 		if (isInduction(cond.X) && invariant(cond.Y)) || (isInduction(cond.Y) && invariant(cond.X)) {
 			return true
